@@ -406,7 +406,7 @@ def _plan(tier):
         rnd=[("line4", 600, 80), ("dup2", 400, 80), ("cluster6", 600, 120), ("lattice9", 400, 100)],
         rec=(24, 1000), rec_group=2,
         mc=[("line4", True), ("dup2", True), ("cluster6", False), ("lattice9", True)],
-        kc=[("line6", "LinePts", 6, 7), ("lattice4", "LatticePts", 4, 5)],
+        kc=[("line6", "LinePts", 6, 7), ("lattice5", "LatticePts", 5, 5)],
         audit=(GNAT_COMBOS, 8, 600))
 
 
